@@ -242,6 +242,11 @@ func buildC17(e *engine, p *rt.Package) {
 			}
 			res.sample(map[string]any{"calls": n, "parallelism": par, "first_call": short(calls[0].desc, 300)})
 			for i := range calls {
+				// the error handler belongs to one registration: no other service's failures go through it
+				// (registrations in one process share nothing but the mux they were given)
+				if calls[i].svc.Name != hooked && (strings.Contains(got[i].err, "status 418") || strings.Contains(want[i].err, "status 418")) {
+					t.Fatalf("call #%d to %s.%s was answered by the error handler that only the registration of %s installed; call: %s; result: %s", i, calls[i].svc.Name, calls[i].m.Name, hooked, short(calls[i].desc, 400), got[i])
+				}
 				if !got[i].equal(want[i]) {
 					var hist strings.Builder
 					for j, c := range calls {
